@@ -44,8 +44,11 @@ def bounded_zero_level(tier, seed):
     bad = None
     cases = 0
     for k in range(6 if tier == 'quick' else 40):
-        shot = std_shot(P, rng, look_deg=0.0, winds=[P.Wind(P.Unit.MPH(rng.uniform(0, 10)), P.Unit.Degree(rng.uniform(0, 360)))])
         d = rng.choice([50, 100, 200, 300, 500])
+        # range-dependent winds: segments ending before the zero distance, head and tail components
+        winds = [P.Wind(P.Unit.MPH(rng.uniform(5, 20)), P.Unit.Degree(rng.choice([0, 180, 135])), P.Unit.Yard(d * rng.uniform(0.2, 0.6))),
+                 P.Wind(P.Unit.MPH(rng.uniform(5, 20)), P.Unit.Degree(rng.choice([180, 0, 45])))]
+        shot = std_shot(P, rng, look_deg=0.0, winds=winds if k % 2 == 0 else [P.Wind(P.Unit.MPH(rng.uniform(0, 10)), P.Unit.Degree(rng.uniform(0, 360)))])
         calc = P.Calculator()
         try:
             m, row = _miss(P, calc, shot, d)
@@ -53,9 +56,12 @@ def bounded_zero_level(tier, seed):
             bad = f'level sight line, zero {d} yd: {type(e).__name__}: {e}'
             continue
         cases += 1
-        # recording interpolates to the row distance, so the miss at the row is accuracy + interpolation error
-        if m > 5e-6 + 0.5 * 0.02:
-            bad = f'level sight line, zero {d} yd: miss {m} ft'
+        # the zero-finder measures the height at the terminal integration point, which lies up to calc_step + one
+        # advance (2 x 0.25 ft) beyond the aim point: allowed miss = accuracy + 0.6 ft x slope relative to the sight line
+        import math
+        slope = abs(math.tan((row.angle >> P.Unit.Radian) - (shot.look_angle >> P.Unit.Radian)))
+        if m > 5e-6 + 0.6 * slope + 1e-4:
+            bad = f'level sight line, zero {d} yd: miss {m} ft (slope {slope})'
     return result('bounded:zero-level', [mk('level-sight-line-zero-hits-the-aim-point', bad is None,
                   'set_weapon_zero then fire: |target_drop| at the zero distance (level sight lines, sampled loads and winds)',
                   cases, t0, bad)], t0, props=('C02',))
